@@ -293,7 +293,11 @@ pub fn run_case(ctx: &mut Ctx, c: &Case) {
             }
             s.push_str("info in.mla\n");
             let key = if p.layers & 1 != 0 { privf.as_str() } else { "-" };
-            s.push_str(&format!("extract in.mla {key} x {fail_file_at} {fail_fw_at}\n"));
+            // the caller's stream is not always fresh: an info call, or a first extraction that failed for
+            // want of a key, may have been made on the same context before
+            let pre = model::prng::fnv(format!("{c:?}").as_bytes()) % 3;
+            ctx.count(["extract:fresh_context", "extract:after_info_on_the_same_context", "extract:after_a_failed_extraction_on_the_same_context"][pre as usize]);
+            s.push_str(&format!("extract in.mla {key} x {fail_file_at} {fail_fw_at} {pre}\n"));
             let r = run_driver(&dir, &s, *valgrind);
             if let Some(w) = crashed(&r) {
                 ctx.violation("C20", &format!("driver-crash:{w}:extract"), scen(), json!({"exit": r.exit, "stderr": r.stderr}));
